@@ -354,5 +354,8 @@ func checkC17(tier, replay string) int {
 	}
 	ctx.Cov["rule"] = "histories run1(fault)[; run2(fault')]; run(normal) on the real profiler binary with a fake `go` tool: disassembler prints the first p bytes of the listing and exits 1 or is killed (quick: every line boundary, every byte of the first two lines and of the execve site, around every 4096-byte flush boundary of a 20 kB listing; thorough: every byte), tool missing from PATH, the profiler itself killed with SIGKILL after the disassembler produced p bytes (every 1024 bytes of a 20 kB listing), SIGKILL or ENOSPC injected by strace at the N-th write to the cache file (N=1..9), and depth-2 fault sequences at line granularity; oracle: the final normal run prints exactly the cold-cache profile or exits non-zero, and a reused cache file equals the complete one; replacement histories: the binary at the same path is replaced by another one (other architecture; same file with bytes of .text flipped, i.e. identical Go build id), with and without an EIO injected at the N-th read while hashing: the next run must profile the new binary; distinct_nontrivial = histories"
 	ctx.Assumptions = []string{"the fake go tool stands for any disassembler failure; the cache path is <home>/.seccomp-profiler/<base>-<sha256(abs)[:10]> as the profiler logs it", "strace injection realises crashes at write granularity"}
+	if replay != "" {
+		return finishReplay(ctx)
+	}
 	return ctx.Finish()
 }
